@@ -2,11 +2,13 @@ import GoRes.Driver.Wire
 import GoRes.Driver.Pat
 import GoRes.Driver.Mux
 import GoRes.Driver.Subs
+import GoRes.Driver.Store
 /-! `gores-driver <domain>`: one op line in, one line `model<TAB>spec<TAB>tag` out. -/
 open GoRes GoRes.Wire
 
 structure DState where
   mux : GoRes.Driver.Mux.St := {}
+  store : GoRes.Driver.Store.St := {}
 
 def stepLine (dom : String) (st : DState) (full : String) : DState × String :=
   -- a line is `op` or `op<TAB>implementation outcome`
@@ -23,6 +25,9 @@ def stepLine (dom : String) (st : DState) (full : String) : DState × String :=
     | "mux" =>
       let (ms, m, s, t) := GoRes.Driver.Mux.run st.mux args
       ({ st with mux := ms }, m ++ "\t" ++ s ++ "\t" ++ t)
+    | "store" =>
+      let (ss, m, s, t) := GoRes.Driver.Store.run st.store args impl
+      ({ st with store := ss }, m ++ "\t" ++ s ++ "\t" ++ t)
     | "subs" => let (m, s, t) := GoRes.Driver.Subs.run args impl; (st, m ++ "\t" ++ s ++ "\t" ++ t)
     | _ => (st, "bad-domain\t-\tbad")
 
